@@ -173,8 +173,6 @@ type histRunner struct {
 	final     map[int]string
 	verbose   bool
 	skipHeavy bool
-	// threeContainers: the data set gives one metric more than 131072 series (big case)
-	threeContainers bool
 }
 
 func (h *histRunner) log(format string, args ...interface{}) {
@@ -622,13 +620,24 @@ func (h *histRunner) check(q *queryCase) *observation {
 		}
 		return o
 	}
-	if maybeLostError && len(exp) > 0 {
+	// a key the metric's schema does not have (no written series of the metric carries it): lindb refuses the query with
+	// an explicit `tag key not found` (tagValuesLookup.getTagKeyID / metadataLookup.groupBy), like an unknown column. That
+	// is the defined answer - no set is selected - and exactly that error is required then (an empty result without an
+	// error is the same refusal whose error the root dropped, see canonical).
+	if len(unkCond)+len(unkGroup) > 0 {
 		switch {
-		case hasLikeStar(q.Cond):
-			o.Err = "(no error reported, empty result) slice bounds out of range"
-		case len(unkCond) > 0:
-			o.Err = "(no error reported, empty result) tag key not found"
+		case strings.Contains(o.Err, "tag key not found"):
+			h.res.count("unknown_key_refused", 1)
+		case maybeLostError:
+			h.res.count("unknown_key_refused", 1)
+			h.res.count("unknown_key_refused_but_the_error_was_dropped_by_the_root", 1)
+		default:
+			h.flagged[q.ID] = true
+			h.res.violation("C10/unknown-tag-key-not-refused",
+				fmt.Sprintf("%s [%s]: the query names tag key(s) %v / group-by key(s) %v the metric does not have and was not refused with `tag key not found` (error %q, %d groups returned): %s",
+					h.caseID, st, unkCond, unkGroup, o.Err, len(o.Groups), q.SQL), witness(nil))
 		}
+		return o
 	}
 	if o.Err != "" {
 		switch {
@@ -636,15 +645,6 @@ func (h *histRunner) check(q *queryCase) *observation {
 			h.flagged[q.ID] = true
 			h.res.violation("C10/like-single-star-panics",
 				fmt.Sprintf("%s [%s]: `like '*'` fails the query with %q instead of selecting every series that has the key: %s", h.caseID, st, o.Err, q.SQL), witness(nil))
-		case strings.Contains(o.Err, "tag key not found") && len(unkCond)+len(unkGroup) > 0:
-			if len(exp) == 0 {
-				h.res.count("unknown_tag_key_error_where_nothing_is_expected", 1)
-			} else {
-				h.flagged[q.ID] = true
-				h.res.violation("C10/unknown-tag-key-fails-satisfiable-condition",
-					fmt.Sprintf("%s [%s]: the condition names tag key(s) %v no series of the metric has (false for every series); %d written series satisfy the condition through its other atoms, "+
-						"but the query fails with %q: %s", h.caseID, st, unkCond, len(selected), o.Err, q.SQL), witness(map[string]interface{}{"expected_groups": len(exp)}))
-			}
 		case len(exp) == 0 && strings.Contains(o.Err, "not found"):
 			h.res.count("not_found_error_where_nothing_is_expected", 1)
 		default:
@@ -668,16 +668,6 @@ func (h *histRunner) check(q *queryCase) *observation {
 	h.flagged[q.ID] = true
 	w := witness(map[string]interface{}{"missing": trunc(d.Missing, 20), "extra": trunc(d.Extra, 20), "wrong_sum": trunc(d.WrongSum, 20),
 		"expected_groups": len(exp), "returned_groups": len(o.Groups)})
-	// explanation 0: a forward-index entry of a table file that spans three roaring containers is read with a wrong
-	// offset table (index/v1/forward_reader.go NewTagForwardReader: lut[idx+1] holds the cardinality of container idx, not
-	// the running sum), so every series of the third container gets the tag values of other series. With the labels
-	// wrong, neither the identification through uid nor any projection can be judged in this regime.
-	if h.threeContainers && h.idx.Files > 0 {
-		h.res.violation("C10/groupby/forward-index-entry-spanning-3-containers",
-			fmt.Sprintf("%s [%s]: the metric has series ids >= 131072 and its forward index is (partly) in table files: group-by tag values of the series of the third container "+
-				"are taken from other series (missing %v, extra %v, wrong sum %v): %s", h.caseID, st, trunc(d.Missing, 4), trunc(d.Extra, 4), trunc(d.WrongSum, 2), q.SQL), w)
-		return o
-	}
 	// explanation 1: atoms with the same Rewrite() text share one lookup result
 	if q.Twins {
 		te := newTwinEvaluator(h.ev, q.Cond)
